@@ -484,6 +484,7 @@ func c08Sack(t *testing.T, rep *hx.Report, orc *hx.Oracle, thorough bool) {
 		rep.Case("sack", fmt.Sprint(c), true, sample)
 		rep.Hit("sack:" + c.Name)
 		rep.Note("sack %s flood=%v timeout=%s maxTTL=%d: elapsed %s (bound %s), err=%v", c.Name, c.Flood, c.Timeout, c.MaxTTL, el, bound, rerr != nil)
+		runawayViolation(rep, map[string]string{"site": "sack", "case": c.Name}, sample)
 		if el > bound {
 			rep.Violate(hx.Violation{Kind: "spec", What: fmt.Sprintf("SACK traceroute (%s) returned after %s, bound %s", c.Name, el, bound),
 				Sig: map[string]string{"site": "sack", "behaviour": "exceeds-bound", "case": c.Name}, Replay: sample})
